@@ -422,24 +422,9 @@ func (w *vc36World) sendMsg(p peer.ID, full bool, es []vc36Entry) {
 			wanted[e.u.c] = true
 		}
 	}
-	var orphans []cid.Cid
-	if len(cancelled) > 0 || full {
-		led := w.engineLedger(p)
-		if topics := w.e.peerRequestQueue.PeerTopics(p); topics != nil {
-			for _, t := range topics.Pending {
-				c := t.(cid.Cid)
-				if _, in := led[c]; !in && (cancelled[c] || (full && !wanted[c])) {
-					orphans = append(orphans, c)
-				}
-			}
-		}
-	}
 	w.mu.Lock()
 	for c := range wanted {
 		delete(w.orphan, vc36PC{p, c})
-	}
-	for _, c := range orphans {
-		w.orphan[vc36PC{p, c}] = true
 	}
 	start := w.tick()
 	var evs []*vc36Ev
@@ -466,6 +451,25 @@ func (w *vc36World) sendMsg(p peer.ID, full bool, es []vc36Entry) {
 		}
 	}
 	w.mu.Unlock()
+	// Observed after the start stamp (an add that ended before it has already
+	// pushed its tasks; one that ends later overlaps this operation).
+	if len(cancelled) > 0 || full {
+		led := w.engineLedger(p)
+		var orphans []cid.Cid
+		if topics := w.e.peerRequestQueue.PeerTopics(p); topics != nil {
+			for _, t := range topics.Pending {
+				c := t.(cid.Cid)
+				if _, in := led[c]; !in && (cancelled[c] || (full && !wanted[c])) {
+					orphans = append(orphans, c)
+				}
+			}
+		}
+		w.mu.Lock()
+		for _, c := range orphans {
+			w.orphan[vc36PC{p, c}] = true
+		}
+		w.mu.Unlock()
+	}
 	w.k.C.Count("wantlist_messages", 1)
 	if w.e.MessageReceived(w.ctx, p, m) {
 		w.k.Fail("connection-killed", "MessageReceived never asks to close the connection for a well-formed wantlist", "false", "true")
